@@ -55,6 +55,7 @@ import (
 	"google.golang.org/grpc"
 	"google.golang.org/grpc/codes"
 	"google.golang.org/grpc/status"
+	"google.golang.org/protobuf/proto"
 	"rsc.io/binaryregexp"
 )
 
@@ -196,6 +197,10 @@ func (s *server) CreateTable(ctx context.Context, req *btapb.CreateTableRequest)
 		req.Table = &btapb.Table{}
 	}
 	req.Table.Name = tbl
+	// Build the response from a copy: once the table is registered its
+	// definition (including the column family map) belongs to the table and
+	// may be modified by other requests while the response is marshalled.
+	created := proto.Clone(req.Table).(*btapb.Table)
 	rows := s.storage.Create(req.Table)
 	s.tables[tbl] = newTable(req.Table, rows)
 
@@ -203,8 +208,8 @@ func (s *server) CreateTable(ctx context.Context, req *btapb.CreateTableRequest)
 
 	ct := &btapb.Table{
 		Name:           tbl,
-		ColumnFamilies: req.GetTable().GetColumnFamilies(),
-		Granularity:    req.GetTable().GetGranularity(),
+		ColumnFamilies: created.GetColumnFamilies(),
+		Granularity:    created.GetGranularity(),
 	}
 	if ct.Granularity == 0 {
 		ct.Granularity = btapb.Table_MILLIS
@@ -235,9 +240,11 @@ func (s *server) GetTable(ctx context.Context, req *btapb.GetTableRequest) (*bta
 		return nil, status.Errorf(codes.NotFound, "table %q not found", req.Name)
 	}
 
-	s.mu.Lock()
-	defer s.mu.Unlock()
-	return tbl.def, nil
+	// The definition is guarded by the table lock, and the response is
+	// marshalled after this method returns: hand out a copy.
+	tbl.mu.RLock()
+	defer tbl.mu.RUnlock()
+	return proto.Clone(tbl.def).(*btapb.Table), nil
 }
 
 func (s *server) DeleteTable(ctx context.Context, req *btapb.DeleteTableRequest) (*emptypb.Empty, error) {
@@ -314,7 +321,8 @@ func (s *server) ModifyColumnFamilies(ctx context.Context, req *btapb.ModifyColu
 	}
 
 	s.storage.SetTableMeta(tbl.def)
-	return tbl.def, nil
+	// The response is marshalled after the table lock is released: return a copy.
+	return proto.Clone(tbl.def).(*btapb.Table), nil
 }
 
 func (s *server) DropRowRange(ctx context.Context, req *btapb.DropRowRangeRequest) (*emptypb.Empty, error) {
